@@ -9,6 +9,7 @@ import itertools
 
 import numpy as np
 import z3
+from harness import pipeline as PP
 
 from symx import loader
 from symx.core import Sym, Ctx, symarray, qval, is_nan, free_vars
@@ -29,7 +30,7 @@ ASSUMPTIONS = ["floats read as reals; concrete float constants computed inside t
 OUTSIDE = ["more azimuths/windows than the bound", "rounding"]
 BOUNDS = {"quick": {"azimuths": "1-2", "windows_per_azimuth": "2-3", "frequencies": 2},
           "thorough": {"azimuths": "1-3", "windows_per_azimuth": "2-3", "frequencies": 3}}
-INSTANCE_TIMEOUT = {"quick": 230, "thorough": 1700}
+INSTANCE_TIMEOUT = {"quick": 230, "thorough": 700}
 DISTS = ["normal", "lognormal", "log-normal"]
 _L = None
 
@@ -71,7 +72,7 @@ def make_state(ctx, naz, w, nf, tag="", azimuths=None):
     frq = np.arange(1.0, nf + 1)
     hs, status = [], []
     for k in range(naz):
-        h = HT.__new__(HT)
+        h = PP.shell_traditional(HT)
         h.frequency, h.n_curves, h.meta = frq, w, {}
         h.amplitude = symarray(f"a{tag}{k}", (w, nf), ctx, pos="exp")
         h._main_peak_frq = np.empty(w, dtype=object)
@@ -91,7 +92,7 @@ def make_state(ctx, naz, w, nf, tag="", azimuths=None):
             h.valid_window_boolean_mask[i] = h.valid_peak_boolean_mask[i] = (s == "accepted")
         hs.append(h)
         status.append(st)
-    az = HA.__new__(HA)
+    az = PP.shell_azimuthal(HA, HT)
     az.hvsrs, az.azimuths, az.meta = hs, (list(azimuths) if azimuths is not None else [float(10 * k) for k in range(naz)]), {}
     return az, status
 
@@ -263,7 +264,7 @@ def run_perm(rep, tier, dist):
     def run(ctx):
         az, status = make_state(ctx, 2, 2, 2)
         HA = az.__class__
-        bz = HA.__new__(HA)
+        bz = PP.shallow_twin(az)
         bz.hvsrs, bz.azimuths, bz.meta = az.hvsrs[::-1], az.azimuths[::-1], {}
         return az, bz, status
 
